@@ -21,9 +21,8 @@ const (
 	fQuoTrunc     = "C17-quo-truncated"
 	fStaleReduced = "C17-stale-reduced-after-modulus-set"
 	fStaleEven    = "C17-stale-reduced-after-even-modulus-write"
-	fIntAddDirty  = "C17-int-add-dirty-output"
 	fDivVarPanic  = "C17-divvartime-panics"
-	fDivVarAlias  = "C17-divvartime-alias-remainder"
+	fDivVarAlias  = "C17-receiver-written-before-operands-read"
 )
 
 func limbsOf(ann int) int { return (ann + 63) / 64 }
@@ -47,9 +46,12 @@ func intAddDirty(zOld *big.Int, zAnn, xAnn, yAnn, cap int) bool {
 	return limbNonzero(zOld, lx, min(size, lz)) || limbNonzero(zOld, size+ly, min(2*size, lz))
 }
 
-// divVarTimePanics is the exact input class of finding C17-divvartime-panics.
+// divVarTimePanics is the input class of finding C17-divvartime-panics: the documented quotient
+// length num.AnnouncedLen() - den.TrueLen() + 2 is negative. Then saferith.Div produces a Nat of
+// negative announced length; at <= -64 it panics, above that the follow-up multiplication
+// truncates the denominator operand in place (and numct.Int's remainder comes out wrong).
 func divVarTimePanics(numAnn int, den *big.Int) bool {
-	return den.Sign() != 0 && numAnn-new(big.Int).Abs(den).BitLen()+2 <= -64
+	return den.Sign() != 0 && numAnn-new(big.Int).Abs(den).BitLen()+2 < 0
 }
 
 // ---- small big.Int helpers ---------------------------------------------------------------
